@@ -150,6 +150,8 @@ def run(case):
         raise
     except Exception as e:
         exc = type(e).__name__
+    if obs.nonfinite:
+        return dict(viol=[], outcome="objective_returned_nonfinite", stats={"nonfinite": 1})
     viol = judge(obs, its, res, p.lb, p.ub)
     touched = any(np.any((q <= p.lb) | (q >= p.ub)) for q in obs.pts)
     return dict(viol=viol, outcome=("exception:" + exc) if exc else str(res.message),
